@@ -32,5 +32,7 @@ def run(prog, chk):
     PC.check_guards(prog, chk, "C04.guards", rules)
     chk.rule("C04.okgate", "no anchor rule reports OK on a path that left a failed helper call (e.g. a signature that could not be verified)", floor=25)
     PC.check_ok_after_failure(prog, chk, "C04.okgate", rules)
+    chk.rule("C04.receive", "extension step: the extender's chain is used only for status absent/zero and the request's own id (decision table)", floor=20)
+    PC.check_receive_calendar(prog, chk, "C04.receive")
     chk.rule("C04.rightlinks", "CAL-04: the extender's right links are exactly the signature's right links (scenario table over link lists)", floor=10)
     PC.check_right_links(prog, chk, "C04.rightlinks")
